@@ -48,6 +48,9 @@ type Analysis struct {
 	Inline func(*ssa.Function) bool
 	depth  int
 	loopHd map[*ssa.BasicBlock]bool
+	// blocks reachable from the entry once conditions on bound parameters are folded (nil: not computed)
+	feasible   map[*ssa.BasicBlock]bool
+	inFeasible bool
 	res    func(ssa.Value) ssa.Value // nil at top level
 	// PhiFilter, if set, restricts which boolean phis may be auto-tracked as derived flags.
 	PhiFilter func(*ssa.Phi) bool
@@ -80,6 +83,111 @@ func (A *Analysis) BindConst(p *ssa.Parameter, val string) {
 	}
 	A.ConstBind[p] = val
 	A.Sym.Bind[p] = strconv.Quote(val)
+	A.feasible = nil
+	A.Sym.PhiConst = A.phiConst
+}
+
+// foldParamCond evaluates a branch condition that only compares bound parameters with constants.
+func (A *Analysis) foldParamCond(v ssa.Value) (known, val bool) {
+	switch x := v.(type) {
+	case *ssa.UnOp:
+		if x.Op == token.NOT {
+			k, b := A.foldParamCond(x.X)
+			return k, !b
+		}
+	case *ssa.BinOp:
+		if x.Op != token.EQL && x.Op != token.NEQ {
+			return false, false
+		}
+		str := func(v ssa.Value) (string, bool) {
+			if c, ok := v.(*ssa.Const); ok && c.Value != nil && c.Value.Kind() == constant.String {
+				return constant.StringVal(c.Value), true
+			}
+			if p, ok := v.(*ssa.Parameter); ok {
+				k, ok := A.ConstBind[p]
+				return k, ok
+			}
+			return "", false
+		}
+		a, okA := str(x.X)
+		b, okB := str(x.Y)
+		if okA && okB {
+			return true, (a == b) == (x.Op == token.EQL)
+		}
+	}
+	return false, false
+}
+
+// phiConst: with a parameter bound to a constant, a non-loop phi whose feasible incoming edges all carry the same
+// constant string has that value.
+func (A *Analysis) phiConst(ph *ssa.Phi) (string, bool) {
+	if len(A.ConstBind) == 0 || A.inFeasible || A.loopHd[ph.Block()] {
+		return "", false
+	}
+	if bt, ok := ph.Type().Underlying().(*types.Basic); !ok || bt.Info()&types.IsString == 0 {
+		return "", false
+	}
+	// edge b -> b.Succs[k] is dead when b branches on a comparison of a bound parameter with a constant that folds
+	// the other way (evaluated here without the symbol table: translating conditions would look at this phi again)
+	deadEdge := func(b *ssa.BasicBlock, k int) bool {
+		ifi, ok := b.Instrs[len(b.Instrs)-1].(*ssa.If)
+		if !ok || b.Succs[0] == b.Succs[1] {
+			return false
+		}
+		known, val := A.foldParamCond(ifi.Cond)
+		if !known {
+			return false
+		}
+		return (k == 0) != val
+	}
+	if A.feasible == nil {
+		reach := map[*ssa.BasicBlock]bool{}
+		stack := []*ssa.BasicBlock{A.Fn.Blocks[0]}
+		for len(stack) > 0 {
+			b := stack[len(stack)-1]
+			stack = stack[:len(stack)-1]
+			if reach[b] {
+				continue
+			}
+			reach[b] = true
+			for k, sc := range b.Succs {
+				if deadEdge(b, k) {
+					continue
+				}
+				stack = append(stack, sc)
+			}
+		}
+		A.feasible = reach
+	}
+	val, n := "", 0
+	for i, pred := range ph.Block().Preds {
+		if !A.feasible[pred] {
+			continue
+		}
+		dead := true
+		for k, sc := range pred.Succs {
+			if sc == ph.Block() && !deadEdge(pred, k) {
+				dead = false
+			}
+		}
+		if dead {
+			continue
+		}
+		c, ok := ph.Edges[i].(*ssa.Const)
+		if !ok || c.Value == nil || c.Value.Kind() != constant.String {
+			return "", false
+		}
+		k := strconv.Quote(constant.StringVal(c.Value))
+		if n > 0 && k != val {
+			return "", false
+		}
+		val = k
+		n++
+	}
+	if n == 0 {
+		return "", false
+	}
+	return val, true
 }
 
 func NewAnalysis(fn *ssa.Function, isPure, inline func(*ssa.Function) bool) *Analysis {
@@ -244,6 +352,19 @@ func (A *Analysis) cond1(v ssa.Value, pc pathCtx) *F {
 		case *ssa.TypeAssert:
 			if t.CommaOk && x.Index == 1 {
 				return A.structAtom(A.keyAtom("isa["+t.AssertedType.String()+"]("+A.Sym.Of(t.X)+")", t.X), "isa", t.X, nil)
+			}
+		}
+		return A.symAtom(v)
+	case *ssa.Lookup:
+		// a boolean entry of a constant table looked up with a constant key (`tbl[name]` specialised to a name)
+		if !x.CommaOk {
+			if val, _, folded := A.Sym.FoldLookup(x); folded {
+				switch val {
+				case "true":
+					return True
+				case "false":
+					return False
+				}
 			}
 		}
 		return A.symAtom(v)
